@@ -210,7 +210,7 @@ package gpbft
 // The verdict nil is reached in two ways only: the cache says this exact message (its full CBOR, in the namespace of
 // its kind, in its instance's group) was accepted before; or every rule of the property held in this call.
 //@ func (*cachingValidator).validateMessageWithVoteValueKey
-//@   property C05 C13
+//@   property C05 C13 C03
 //@   modifies auto
 //@   maypanic
 //@   opaque Get
@@ -277,7 +277,7 @@ package gpbft
 // for bottom or PREPARE for the same value from the previous round; COMMIT by PREPARE for the same value in the same
 // round; DECIDE by COMMIT for the same value (any round).
 //@ func (*cachingValidator).validateJustification
-//@   property C05 C13
+//@   property C05 C13 C03
 //@   harness harness/validator_sentinel_round_test.go
 //@   requires msg != nil && comt != nil && tblOK(comt.PowerTable) && (msg.Justification != nil ==> ssumDef(comt.PowerTable.ScaledPower, msg.Justification.Signers))
 //@   requires !((msg.Vote.Phase == CONVERGE_PHASE || msg.Vote.Phase == PREPARE_PHASE) && msg.Vote.Round == 0)
@@ -446,3 +446,9 @@ package gpbft
 //@   property C03
 //@ structural callersonly (*instance).terminate in (*instance).tryDecide : a decision is recorded only from a strong quorum of DECIDE votes
 //@   property C03
+
+// Supplemental data are equal exactly when both the commitments and the next power table's CID are.
+//@ func (*SupplementalData).Eq
+//@   property C03 C05
+//@   modifies nothing
+//@   ensures[compares_commitments_and_power_table_cid] result == (d.Commitments == other.Commitments && d.PowerTable == other.PowerTable)
